@@ -29,10 +29,44 @@ Inductive cmd :=
 | CChange (v : vid) (sel : Z) (a : arg)
 | CCopy (v : vid).
 
+(* structural equality of types (the hook of a union's value view remembers the option type it was obtained under) *)
+Fixpoint ty_eqb (a b : ty) {struct a} : bool :=
+  match a, b with
+  | TUint x, TUint y => x =? y
+  | TBool, TBool => true
+  | TBitvector x, TBitvector y => x =? y
+  | TBitlist x, TBitlist y => x =? y
+  | TByteVector x, TByteVector y => x =? y
+  | TByteList x, TByteList y => x =? y
+  | TVector e n, TVector e' n' => ty_eqb e e' && (n =? n')
+  | TList e l, TList e' l' => ty_eqb e e' && (l =? l')
+  | TContainer fs, TContainer fs' =>
+      (fix go (l l' : list ty) {struct l} : bool :=
+         match l, l' with [], [] => true | x :: r, y :: r' => ty_eqb x y && go r r' | _, _ => false end) fs fs'
+  | TUnion b os, TUnion b' os' =>
+      Bool.eqb b b' &&
+      (fix go (l l' : list ty) {struct l} : bool :=
+         match l, l' with [], [] => true | x :: r, y :: r' => ty_eqb x y && go r r' | _, _ => false end) os os'
+  | _, _ => false
+  end.
+
 Section WithHash.
 Variable H : bytes -> bytes -> bytes.
 Variable src : bytes -> option (bytes * bytes).
 Notation mk := (mk H).
+
+(* Union.value()'s handle_change (union.py, after fix D15): the view of a union's value refuses to write back once the
+   union holds an option of another type (the view is stale) *)
+Definition union_guard (t : ty) (pn : node) (e : ty) : result unit :=
+  match t with
+  | TUnion b os =>
+      do sel <- union_selector H src t pn;
+      match union_opt b os (N.to_nat sel) with
+      | Some o => if ty_eqb o e then Ok tt else Err EOther
+      | None => Err EOther
+      end
+  | _ => Err EOther
+  end.
 
 Definition upd_cell (s : store) (v : vid) (c : cell) : store :=
   firstn v s ++ c :: skipn (S v) s.
@@ -79,7 +113,7 @@ Fixpoint set_backing (fuel : nat) (s : store) (v : vid) (b : node) : result unit
               match nth_error s1 p with
               | None => (Err EOther, s1)
               | Some pc =>
-                  match setter_g H src false (cback pc) 2 b with
+                  match (do _ <- union_guard (cty pc) (cback pc) (cty c); setter_g H src false (cback pc) 2 b) with
                   | Err e => (Err e, s1)
                   | Ok nb => set_backing f s1 p nb
                   end
